@@ -6,6 +6,7 @@ import sx
 PID = "C18"
 RUNNER = "impl_m5.py"
 N = {"quick": 3000, "thorough": 100000}
+VM_CROSSCHECK = True
 LEVEL_RULE = ("four case kinds: (cmp) a duration of either kind against another duration of either kind or a raw int / float / "
               "fraction (equal, one tick apart, far apart, negative), all six operators and their reflections; (arith) + - * / with "
               "a duration or raw number, operands checked unchanged (cmp also against ratio durations whose exact ratio differs by less than the 10-digit resolution); (durhist) histories of 1-10 updates (assignment, in-place "
